@@ -9,6 +9,7 @@ import ToastyVerif.Gen.Parity
 import ToastyVerif.Gen.Samplers
 import ToastyVerif.Model.Publish
 import ToastyVerif.Gen.Paths
+import ToastyVerif.Model.Pixels
 
 namespace Driver
 
@@ -312,6 +313,55 @@ def handlePath (op : String) (a : List String) : String :=
       | none => "bad-op"
   | _, _ => "bad-op"
 
+/-! ### maskable buffers: images are `row;row;…`, rows `px|px|…`, pixels `c,c,…`, channel `n` = NaN -/
+
+def parseCh (s : String) : Option PixelBase.Ch :=
+  if s = "n" then some none else s.toInt?.map some
+
+def parseImg (s : String) : Option (List (List PixelBase.Px)) :=
+  (s.splitOn ";").mapM fun row => (row.splitOn "|").mapM fun px => (px.splitOn ",").mapM parseCh
+
+def imgOf (rows : List (List PixelBase.Px)) : Pixels.Img := fun r c => (rows.getD r []).getD c []
+
+def showCh : PixelBase.Ch → String
+  | none => "n" | some v => toString v
+
+def showImg (h w : Nat) (img : Pixels.Img) : String :=
+  ";".intercalate ((List.range h).map fun r => "|".intercalate ((List.range w).map fun c => ",".intercalate ((img r c).map showCh)))
+
+def modeOf (s : String) : Option Pixels.ModeSem := Pixels.allModes.find? (·.name == s)
+
+/-- `<f|r> <bstart> <s0> <len>` -/
+def parseSlice (a : List String) : Option (Nat → Option Nat) :=
+  match a with
+  | [d, b, s0, len] => match b.toNat?, s0.toNat?, len.toNat? with
+    | some b, some s0, some len =>
+      if d = "f" then some (Pixels.sliceFwd b s0 len) else if d = "r" then some (Pixels.sliceRev b s0 len) else none
+    | _, _, _ => none
+  | _ => none
+
+def handlePx (op : String) (a : List String) : String :=
+  match op, a with
+  | "fill", [mode, bh, bw, yd, yb, ys, yl, xd, xb, xs, xl, src] =>
+    match modeOf mode, bh.toNat?, bw.toNat?, parseSlice [yd, yb, ys, yl], parseSlice [xd, xb, xs, xl], parseImg src with
+    | some m, some bh, some bw, some ry, some rx, some src =>
+      showImg bh bw (Pixels.fill m ⟨ry, rx⟩ (imgOf src))
+    | _, _, _, _, _, _ => "bad-op"
+  | "update", [mode, bh, bw, yd, yb, ys, yl, xd, xb, xs, xl, src, buf] =>
+    match modeOf mode, bh.toNat?, bw.toNat?, parseSlice [yd, yb, ys, yl], parseSlice [xd, xb, xs, xl], parseImg src, parseImg buf with
+    | some m, some bh, some bw, some ry, some rx, some src, some buf =>
+      showImg bh bw (Pixels.update m ⟨ry, rx⟩ (imgOf buf) (imgOf src))
+    | _, _, _, _, _, _, _ => "bad-op"
+  | "masked", [mode, bh, bw, buf] =>
+    match modeOf mode, bh.toNat?, bw.toNat?, parseImg buf with
+    | some m, some bh, some bw, some buf => toString (Pixels.completelyMasked m bh bw (imgOf buf))
+    | _, _, _, _ => "bad-op"
+  | "clear", [mode, bh, bw] =>
+    match modeOf mode, bh.toNat?, bw.toNat? with
+    | some m, some bh, some bw => showImg bh bw (Pixels.clear m)
+    | _, _, _ => "bad-op"
+  | _, _ => "bad-op"
+
 def handle (toks : List String) : String :=
   match toks with
   | "gen" :: op :: args => match ints args with
@@ -326,6 +376,7 @@ def handle (toks : List String) : String :=
   | "sampler" :: variant :: args => handleSampler variant args
   | "pub" :: op :: args => handlePub op args
   | "path" :: op :: args => handlePath op args
+  | "px" :: op :: args => handlePx op args
   | _ => "bad-op"
 
 end Driver
